@@ -18,6 +18,7 @@ import (
 	"bytes"
 	"fmt"
 	"go/format"
+	"go/token"
 	"go/types"
 	"strconv"
 )
@@ -166,21 +167,29 @@ func (tm *typesMap) newName(typs []types.Type) string {
 			}
 		}
 	}
+	// the name of the type is cut between characters, not between bytes.
+	runes := []rune(name)
 	i := 0
 	funcName := tm.prefix
 	_, exists := tm.funcToTyps[funcName]
 	_, isreserved := tm.reserved[funcName]
-	for exists || isreserved {
-		if i > len(name) {
+	for exists || isreserved || !usableName(funcName) {
+		if i > len(runes) {
 			funcName = tm.prefix + "_" + name + strconv.Itoa(i)
 		} else {
-			funcName = tm.prefix + "_" + name[:i]
+			funcName = tm.prefix + "_" + string(runes[:i])
 		}
 		i++
 		_, exists = tm.funcToTyps[funcName]
 		_, isreserved = tm.reserved[funcName]
 	}
 	return funcName
+}
+
+// usableName returns whether a function can be declared and called under this name:
+// a prefix like select or string by itself is a keyword or would hide a predeclared identifier.
+func usableName(name string) bool {
+	return !token.IsKeyword(name) && types.Universe.Lookup(name) == nil
 }
 
 func eq(this, that []types.Type) bool {
